@@ -28,6 +28,57 @@ ASSUMPTIONS = ["all solver paths iterate the same fixed-point map when the struc
 TRUSTED = ["sympy", "CFG event words"]
 
 
+EPS_FACTORS = {"CONVERGENCE_DM_ERROR_FACTOR": 2.0, "CONVERGENCE_DM_ELEMENT_FACTOR": 15.0, "CONVERGENCE_DIIS_FACTOR": 50.0}
+
+
+def _threshold_integrity(ctx):
+    """every load of the `eps` parameter in scf_loop.py is (a) an operand of a comparison, alone or times an inventoried module constant,
+    (b) an argument handed on to a callee, or (c) a dtype/device conversion of itself; nothing floors, caps or rescales it."""
+    from ..exprs import NotConst, fold
+    repo = ctx.repo
+    m = repo.mod("seqm/seqm_functions/scf_loop.py")
+    for nm, want in EPS_FACTORS.items():
+        v = m.globals.get(nm)
+        try:
+            got = fold(v) if v is not None else None
+        except (NotConst, TypeError):
+            got = None
+        ctx.check(got is not None and 1.0 <= got <= want, "R4", m, v if v is not None else m.tree, "<module>", nm, f"{nm} = {got} (at most the inventoried {want})",
+                  f"{nm} = {got}: the convergence test accepts errors {got} x scf_eps (inventoried bound {want}); results of different solver paths no longer agree within a small multiple of the threshold")
+    n = 0
+    for qual, f in m.functions.items():
+        params = {a.arg for a in f.args.args + f.args.kwonlyargs}
+        if "eps" not in params:
+            continue
+        for x in ast.walk(f):
+            if not (isinstance(x, ast.Name) and x.id == "eps") or m.qualname_of(x) != qual:
+                continue
+            par = m.parents.get(x)
+            st = m.enclosing_stmt(x)
+            n += 1
+            if isinstance(x.ctx, ast.Store):
+                ok = isinstance(st, ast.Assign) and isinstance(st.value, ast.Call) and (call_name(st.value) or "") in ("torch.as_tensor", "torch.tensor") and st.value.args and norm(st.value.args[0]) == "eps"
+                ctx.check(ok, "R4", m, st, qual, st, "eps is only re-bound to a tensor copy of itself",
+                          f"`{short(norm(st))}` changes the requested convergence threshold inside {qual}: below/above some value the solver silently converges to a different tolerance than the caller asked for")
+                continue
+            ok = False
+            if isinstance(par, ast.Compare):
+                ok = True
+            elif isinstance(par, ast.BinOp) and isinstance(par.op, ast.Mult):
+                other = par.right if par.left is x else par.left
+                ok = isinstance(other, ast.Name) and other.id in EPS_FACTORS and isinstance(m.parents.get(par), ast.Compare)
+            elif isinstance(par, ast.Call) and x in par.args:
+                cn = (call_name(par) or callee_attr(par) or "")
+                ok = cn.split(".")[-1] in ("get_error", "scf_forward0", "scf_forward1", "scf_forward2", "scf_forward3", "scfapply", "save_for_backward", "as_tensor", "apply") or cn.startswith("scf_forward")
+            elif isinstance(par, ast.keyword):
+                ok = par.arg in ("eps",)
+            elif isinstance(par, (ast.FormattedValue, ast.JoinedStr)):
+                ok = True
+            ctx.check(ok, "R4", m, st, qual, f"eps in `{short(norm(st))}`", f"eps is used as a comparison bound or handed on unchanged ({type(par).__name__})",
+                      f"`{short(norm(st))}` derives a different threshold from the requested eps in {qual}")
+    ctx.floor("R4", 15)
+
+
 def run(ctx):
     import sympy as sp
     repo = ctx.repo
@@ -35,6 +86,11 @@ def run(ctx):
     ctx.rule("R1", "SCF drivers are siblings: same fixed-point map, same stopping rule, same density builders")
     ctx.rule("R2", "unrestricted Fock terms reduce to the restricted formulas for P_alpha = P_beta = P/2")
     ctx.rule("R3", "attribute universe: attributes read on Molecule objects exist")
+    ctx.rule("R4", "threshold integrity: the requested scf_eps reaches every convergence comparison unmodified (only the inventoried constant factors)")
+    ctx.rule("R5", "spin flattening: unrestricted (B,2,N,N) tensors are flattened with per-molecule sizes interleaved (UHF == RHF on mixed batches)")
+    _threshold_integrity(ctx)
+    from .c05 import check_spin_flatten
+    check_spin_flatten(ctx, "R5")
 
     # ------------------------------------------------------------------ R1
     fock_arglists = {}
